@@ -83,6 +83,18 @@ def stdOp (toks : List String) : Option String :=
       | some h => pure ("ok " ++ showBytes (encRtpgExt (valsOfPV h) gs))
       | none => pure ("ok " ++ showBytes (encRtpg gs))
     | _ => none
+  | ["stdenc", "readelementstatus", pv] => do
+    -- {header={…}, pages=[{header={…}, descs=[{fields={…}, ptag=x…, atag=x…, rest=x…}, …]}, …]}
+    match ← PVText.parsePV pv with
+    | .dict d =>
+      let hv := match PDict.get? d "header" with | some h => valsOfPV h | none => fun _ => 0
+      let pages := (pvList (.dict d) "pages").map (fun p =>
+        ((match p with | .dict pd => (match PDict.get? pd "header" with | some h => valsOfPV h | none => fun _ => 0) | _ => fun _ => 0),
+         (pvList p "descs").map (fun e =>
+           ((match e with | .dict ed => (match PDict.get? ed "fields" with | some f => valsOfPV f | none => fun _ => 0) | _ => fun _ => 0),
+            pvBytes e "ptag", pvBytes e "atag", pvBytes e "rest"))))
+      pure ("ok " ++ showBytes (encReadElementStatus hv pages))
+    | _ => none
   | ["stdenc", fmt, pv] => do
     -- modesense6 / modesense10: {header={…}, bd=x…, page={sub=i0|i1, header={…}, body=x…}}
     if fmt != "modesense6" && fmt != "modesense10" then none else
